@@ -11,6 +11,7 @@ import (
 	"path/filepath"
 	"strconv"
 	"sync"
+	"sync/atomic"
 	"time"
 
 	"github.com/golang/protobuf/proto"
@@ -813,10 +814,12 @@ func (t *State) GetTotal() *big.Int {
 // 查找状态机meta信息
 func (t *State) GetMeta() *pb.UtxoMeta {
 	meta := &pb.UtxoMeta{}
-	meta.LatestBlockid = t.latestBlockid
+	// (GetMeta is asked by every pre-execution, next to blocks and walks that move the tip and
+	// refresh the pool statistics)
+	meta.LatestBlockid = t.GetLatestBlockid()
 	meta.UtxoTotal = t.utxo.GetTotal().String() // pb没有bigint，所以转换为字符串
-	meta.AvgDelay = t.tx.AvgDelay
-	meta.UnconfirmTxAmount = t.tx.UnconfirmTxAmount
+	meta.AvgDelay = atomic.LoadInt64(&t.tx.AvgDelay)
+	meta.UnconfirmTxAmount = atomic.LoadInt64(&t.tx.UnconfirmTxAmount)
 	meta.MaxBlockSize = t.meta.GetMaxBlockSize()
 	meta.ReservedContracts = t.meta.GetReservedContracts()
 	meta.ForbiddenContract = t.meta.GetForbiddenContract()
@@ -1422,7 +1425,7 @@ func (t *State) processUnconfirmTxs(block *pb.InternalBlock, batch kvdb.Batch, n
 	if loadErr != nil {
 		return nil, nil, loadErr
 	}
-	t.log.Info("unconfirm table size", "unconfirmTxCount", t.tx.UnconfirmTxAmount)
+	t.log.Info("unconfirm table size", "unconfirmTxCount", atomic.LoadInt64(&t.tx.UnconfirmTxAmount))
 	undoDone := map[string]bool{}
 	unconfirmToConfirm := map[string]bool{}
 	for txid, unconfirmTx := range unconfirmTxMap {
